@@ -351,5 +351,30 @@ def match_d28(case, kind, detail):
     return False
 
 
-MATCHERS = {'D29': match_d29, 'D28': match_d28, 'D25': match_d25, 'D11': match_d11, 'D20': match_d20, 'D21': lambda c, k, d: match_d21(c, k, d) or match_d21_internal(c, k, d),
+D30_IGNORES = {'metadata': ['timestamp', 'timestamp.chk', 'timestamp.commit', 'timestamp.x'],
+               'metadata/dtd': ['timestamp.chk', 'timestamp.commit'], 'metadata/glsa': ['timestamp.chk', 'timestamp.commit'],
+               'metadata/news': ['timestamp.chk', 'timestamp.commit'], 'metadata/xml-schema': ['timestamp.chk', 'timestamp.commit']}
+
+
+def match_d30(case, kind, detail):
+    """ebuild profiles: a Manifest is created in metadata/ (or one of its four special sub-directories) and a file its default IGNORE list
+    names already has an entry in a Manifest above (the tree was covered under another profile before): NotImplementedError"""
+    if not (kind == 'internal' and detail[1:3] == ['Internal', 'NotImplementedError'] and case.opts[4] in ('ebuild', 'old-ebuild')):
+        return False
+    paths = set(logical_file_paths(case))
+    cand = [d + '/' + f for d, fs in D30_IGNORES.items() for f in fs if d + '/' + f in paths]
+    if not cand:
+        return False
+    if case.meta.get('switched_profile'):
+        return True
+    listed = set()
+    for m, ents in pre_manifests(case).items():
+        d = os.path.dirname(m)
+        for e in ents:
+            if e[0] in OX.FILE_TAGS:
+                listed.add(OX.norm(d, e[1]))
+    return any(p in listed for p in cand)
+
+
+MATCHERS = {'D30': match_d30, 'D29': match_d29, 'D28': match_d28, 'D25': match_d25, 'D11': match_d11, 'D20': match_d20, 'D21': lambda c, k, d: match_d21(c, k, d) or match_d21_internal(c, k, d),
             'D13': match_d13, 'D12': match_d12, 'D8': match_d8, 'D23': match_d23}
